@@ -1,12 +1,14 @@
 import Agd.Gen.TrC09
 import Agd.Model.Ratelimit
 /-!
-# C09: decision structure of the rate limiter, as translated from the source
+# C09: the rate limiter's logic, as translated from the source
 
-`Agd.Gen.TrC09.*` are regenerated from `internal/dnsserver/ratelimit/{backoff,counter}.go` on every
-run (`extract/tr.go`).  Library calls (`allowlist.IsAllowed`, the go-cache look-ups, `time.Now`) are
-opaque: their results are parameters, and the definitions return the *trace* of opaque calls made, in
-order, with their scalar arguments.  The theorems below are stated on the translated code itself.
+`Agd.Gen.TrC09.*` are regenerated on every run (`extract/tr.go`, `extract/translate/C09.json`) from
+`internal/dnsserver/ratelimit/{backoff,counter,ratelimit}.go`, `internal/dnssvc/internal/ratelimitmw/limit.go`
+and `internal/agd/ratelimit.go`.  Library calls (`allowlist.IsAllowed`, the go-cache look-ups, `time.Now`, the
+next handler, the response writer) are opaque: their results are parameters, and the definitions return the
+*trace* of opaque calls made, in order, with their scalar arguments.  The theorems are stated on the translated
+code itself, or relate it to the hand-written model `Agd.Model.Ratelimit` for all inputs.
 -/
 namespace Agd.Tie.TrC09
 open Agd.Gen.TrC09 Agd.TrPrelude
